@@ -55,15 +55,21 @@ func countStrings(n, maxLen int) int {
 }
 
 // goroutine accounting: every goroutine started through the `go` hook must have finished.
+// Goroutines found leaked by an earlier case of this worker stay leaked: they are the
+// baseline for later cases (each leak is attributed to the case that caused it).
+var leakedSoFar int64
+
 func leakCheck() (int64, bool) {
 	deadline := time.Now().Add(3 * time.Second)
 	for i := 0; ; i++ {
 		s, f := verifrt.GoCounts()
-		if s == f {
+		if s-f <= leakedSoFar {
 			return 0, true
 		}
 		if time.Now().After(deadline) {
-			return s - f, false
+			n := s - f - leakedSoFar
+			leakedSoFar = s - f
+			return n, false
 		}
 		if i < 100 {
 			runtime.Gosched()
